@@ -666,6 +666,8 @@ def _build(spec: dict):
         rules = []
         for r in b["rules"]:
             rule = fl.Rule.create(r["text"] if "text" in r else rule_text(r))
+            if "text" in r and r.get("weight") is not None:
+                rule.weight = fdec(r["weight"])  # (a literal text keeps the weight it was written with; later weight edits live in the spec)
             rule.enabled = r["enabled"]
             rules.append(rule)
         blocks.append(fl.RuleBlock(name=b["name"], enabled=b["enabled"], conjunction=build_norm(b["conjunction"]),
